@@ -20,7 +20,7 @@ Step(e) ==
     [] e.a = "Uploaded" -> Uploaded(e.s, e.d)
     [] e.a = "Failed"   -> Failed(e.s, e.d)
     [] OTHER -> FALSE
-TInit == Init /\ tid \in 1..Len(Traces) /\ l = 1 /\ mode = Traces[tid].mode
+TInit == Init /\ tid \in 1..Len(Traces) /\ l = 1 /\ mode = Traces[tid].mode /\ hostEarly = Traces[tid].he
 TNext ==
   /\ l <= Len(Traces[tid].steps)
   /\ LET e == Traces[tid].steps[l] IN
